@@ -182,7 +182,7 @@ class World:
         rep.replication_done = done
         rep._accept_replica = accept
 
-    def deploy(self):
+    def deploy(self, drain=True):
         for a in self.dep["agents"]:
             d = self.disc[a]
             self.pool.call(d.discovery_computation.name, lambda d=d, a=a: d.register_agent(a, "addr_" + a))
@@ -196,7 +196,8 @@ class World:
             for n in sorted(self.nb[c["name"]]):
                 self.pool.call(d.discovery_computation.name, lambda d=d, n=n: d.subscribe_computation(n))
             self.pool.call(self.rep[c["agent"]].name, lambda c=c: self.rep[c["agent"]].add_computation(self.comp_defs[c["name"]], c["footprint"]))
-        self.pool.run(self.pool.steps + 5000)
+        if drain:
+            self.pool.run(self.pool.steps + 5000)
 
 
 def run_dep(dep, seed, choices=None, harvest=None):
@@ -204,7 +205,10 @@ def run_dep(dep, seed, choices=None, harvest=None):
     w = World(dep, seed, choices=choices)
     if harvest is not None:
         w.pool.observers.append(lambda kind, data: harvest.append(data[2]) if kind == "send" else None)
-    w.deploy()
+    # in a third of the histories the neighbour lookups are still in flight when replication is requested (the
+    # orchestrator's request can overtake the directory's answers)
+    w.early = rng.random() < 0.33
+    w.deploy(drain=not w.early)
     if w.pool.errors:
         return w, "deploy-error"
     detsched.choose_bias(rng, w.pool, list(w.rep[a].name for a in w.rep))
@@ -356,6 +360,7 @@ def worker(job):
             R.count("accepts_while_holding_several", w.stats["accepts_nontrivial"])
             R.count("agents_reported_done", len(w.done))
             R.bump("k", str(dep["k"]))
+            R.count("runs_with_replication_requested_before_the_lookups_were_answered", 1 if getattr(w, "early", False) else 0)
             R.count("runs_with_hosted_computations_outside_replication", 1 if dep.get("extras") else 0)
             R.bump("costs", "fractional" if dep.get("fractional_costs") else "integer")
             R.bump("status", status)
